@@ -9,6 +9,10 @@ try/except see the same behaviour.
                    value (the exception propagates):
                    `with CM(obj): BODY`  ->  `_s = dict(obj.__dict__)` / `try: BODY` / `except BaseException: obj.__dict__.clear();
                    obj.__dict__.update(_s); raise`.
+  lifecycle form   a class whose __enter__ runs set-up statements on its constructor arguments and whose __exit__ runs the same
+                   clean-up whatever the outcome: `with CM(args): BODY` -> set-up; `try: BODY` / `finally: clean-up`.
+  translation form a class whose __enter__ returns self and whose __exit__ only re-raises selected exception types as another
+                   exception: `with CM(args): BODY` -> `try: BODY` / `except E as _e: raise X(...)`.
 Anything else is left untouched (the rules then treat the `with` body as plain statements, as before).
 The rewrite mutates the FunctionDef nodes of *this* Program instance only (each check run builds its own).
 """
@@ -58,6 +62,101 @@ def _class_form(prog, ci):
     return init.params[1]
 
 
+def _translation_form(prog, ci):
+    """a class whose __enter__ only returns self and whose __exit__ only re-raises selected exception types as another exception
+    (`if exc_type is not None and issubclass(exc_type, E): raise X(...)`) and never returns a true value:
+    -> ([(E expr, raise statement)], {attribute: constructor parameter}) or None"""
+    init, enter, exit_ = ci.methods.get('__init__'), ci.methods.get('__enter__'), ci.methods.get('__exit__')
+    if not (enter and exit_) or len(exit_.params) != 4:
+        return None
+    attrs = {}
+    if init is not None:
+        for s in init.node.body:
+            if isinstance(s, ast.Expr) and isinstance(s.value, ast.Constant):
+                continue
+            if isinstance(s, ast.Assign) and len(s.targets) == 1 and isinstance(s.targets[0], ast.Attribute) and norm(s.targets[0].value) == 'self' \
+                    and isinstance(s.value, ast.Name) and s.value.id in init.params[1:]:
+                attrs[s.targets[0].attr] = s.value.id
+            else:
+                return None
+    eb = [s for s in enter.node.body if not (isinstance(s, ast.Expr) and isinstance(s.value, ast.Constant))]
+    if not all(isinstance(s, ast.Pass) or (isinstance(s, ast.Return) and (s.value is None or norm(s.value) == 'self')) for s in eb):
+        return None
+    et, ev = exit_.params[1], exit_.params[2]
+    out = []
+    for s in exit_.node.body:
+        if isinstance(s, ast.Expr) and isinstance(s.value, ast.Constant):
+            continue
+        if isinstance(s, ast.Return) and (s.value is None or (isinstance(s.value, ast.Constant) and not s.value.value)):
+            continue
+        if isinstance(s, ast.If) and not s.orelse and len(s.body) == 1 and isinstance(s.body[0], ast.Raise) and s.body[0].exc is not None:
+            t = s.test
+            vals = t.values if isinstance(t, ast.BoolOp) and isinstance(t.op, ast.And) else [t]
+            typ = None
+            for v in vals:
+                vt = norm(v).replace(' ', '')
+                if vt in (f'{et}isnotNone', f'{ev}isnotNone', et, ev):
+                    continue
+                if isinstance(v, ast.Call) and isinstance(v.func, ast.Name) and len(v.args) == 2 and \
+                        ((v.func.id == 'issubclass' and norm(v.args[0]) == et) or (v.func.id == 'isinstance' and norm(v.args[0]) == ev)) and typ is None:
+                    typ = v.args[1]
+                    continue
+                return None
+            if typ is None:
+                return None
+            out.append((typ, s.body[0]))
+            continue
+        return None
+    return (out, attrs, init, ev) if out else None
+
+
+def _lifecycle_form(prog, ci):
+    """a class whose __enter__ runs set-up statements and returns self, and whose __exit__ runs the same clean-up whatever the
+    outcome (it never reads its exception arguments) and never returns a true value; the manager keeps nothing but its
+    constructor arguments:  `with CM(args): BODY` -> set-up; `try: BODY` / `finally: clean-up`.
+    -> (enter statements, exit statements, {attribute: constructor parameter}, __init__) or None"""
+    init, enter, exit_ = ci.methods.get('__init__'), ci.methods.get('__enter__'), ci.methods.get('__exit__')
+    if not (init and enter and exit_) or len(exit_.params) != 4 or len(enter.params) != 1:
+        return None
+    attrs = {}
+    for s in init.node.body:
+        if isinstance(s, ast.Expr) and isinstance(s.value, ast.Constant):
+            continue
+        if isinstance(s, ast.Assign) and len(s.targets) == 1 and isinstance(s.targets[0], ast.Attribute) and norm(s.targets[0].value) == 'self' \
+                and isinstance(s.value, ast.Name) and s.value.id in init.params[1:]:
+            attrs[s.targets[0].attr] = s.value.id
+        else:
+            return None
+    parts = []
+    for m, kind in ((enter, 'enter'), (exit_, 'exit')):
+        body = [s for s in m.node.body if not (isinstance(s, ast.Expr) and isinstance(s.value, ast.Constant))]
+        if body and isinstance(body[-1], ast.Return):
+            r = body[-1]
+            okr = (r.value is None or norm(r.value) == 'self') if kind == 'enter' else (r.value is None or (isinstance(r.value, ast.Constant) and not r.value.value))
+            if not okr:
+                return None
+            body = body[:-1]
+        if any(isinstance(n, (ast.Return, ast.Yield, ast.YieldFrom, ast.FunctionDef, ast.Lambda, ast.Global, ast.Nonlocal)) for s in body for n in ast.walk(s)):
+            return None
+        pm = {}
+        for s in body:
+            for n in ast.walk(s):
+                for c in ast.iter_child_nodes(n):
+                    pm[c] = n
+        for s in body:
+            for n in ast.walk(s):
+                if isinstance(n, ast.Name) and n.id == 'self':
+                    par = pm.get(n)
+                    if not (isinstance(par, ast.Attribute) and par.attr in attrs and isinstance(par.ctx, ast.Load)):
+                        return None
+                if isinstance(n, ast.Name) and kind == 'exit' and n.id in exit_.params[1:]:
+                    return None
+        parts.append(body)
+    if not parts[1]:
+        return None
+    return parts[0], parts[1], attrs, init
+
+
 class _W(ast.NodeTransformer):
     def __init__(self, prog, f):
         self.prog, self.f = prog, f
@@ -89,7 +188,85 @@ class _W(ast.NodeTransformer):
             if p is not None and len(call.args) + len(call.keywords) == 1:
                 obj = call.args[0] if call.args else call.keywords[0].value
                 return self.class_form(node, obj)
+            lf = _lifecycle_form(self.prog, r[1])
+            if lf is not None and item.optional_vars is None:
+                rep = self.lifecycle_form(node, call, lf)
+                if rep is not None:
+                    return rep
+            tf = _translation_form(self.prog, r[1])
+            if tf is not None and item.optional_vars is None:
+                return self.translation_form(node, call, tf)
         return node
+
+    def lifecycle_form(self, node, call, lf):
+        enter_b, exit_b, attrs, init = lf
+        b = bind(init, call, True)
+        if b is None or '__nva__' in b or not all(isinstance(a, (ast.Name, ast.Attribute, ast.Constant)) for a in b.values()):
+            return None
+        # the arguments are read again at exit: they must not be rebound by the body
+        stored = {n.id for s in node.body for n in ast.walk(s) if isinstance(n, ast.Name) and isinstance(n.ctx, (ast.Store, ast.Del))}
+        if any(isinstance(n, ast.Name) and n.id in stored for a in b.values() for n in ast.walk(a)):
+            return None
+        self.n += 1
+        tag = f'_cm{self.n}_'
+
+        class A(ast.NodeTransformer):
+            def __init__(self_, locals_):
+                self_.locals = locals_
+
+            def visit_Attribute(self_, n):
+                if norm(n.value) == 'self' and n.attr in attrs and attrs[n.attr] in b:
+                    return copy.deepcopy(b[attrs[n.attr]])
+                self_.generic_visit(n)
+                return n
+
+            def visit_Name(self_, n):
+                if n.id in self_.locals:
+                    return ast.copy_location(ast.Name(id=tag + n.id, ctx=n.ctx), n)
+                return n
+        out = []
+        for body in (enter_b, exit_b):
+            locals_ = {n.id for s in body for n in ast.walk(s) if isinstance(n, ast.Name) and isinstance(n.ctx, (ast.Store, ast.Del))}
+            out.append([A(locals_).visit(copy.deepcopy(s)) for s in body])
+        t = ast.Try(body=node.body, handlers=[], orelse=[], finalbody=out[1])
+        new = out[0] + [t]
+        for s_ in new:
+            ast.copy_location(s_, node)
+            ast.fix_missing_locations(s_)
+        self.done.append('lifecycle form')
+        return new
+
+    def translation_form(self, node, call, tf):
+        handlers_, attrs, init, ev = tf
+        b = bind(init, call, True) if init is not None else {}
+        if b is None or '__nva__' in b:
+            return node
+        self.n += 1
+        var = f'_cm{self.n}_error'
+
+        class A(ast.NodeTransformer):
+            # self.<attr> of the manager reads the constructor argument; the exception value is the handler's name
+            def visit_Attribute(self_, n):
+                if norm(n.value) == 'self' and n.attr in attrs and attrs[n.attr] in b:
+                    return copy.deepcopy(b[attrs[n.attr]])
+                self_.generic_visit(n)
+                return n
+
+            def visit_Name(self_, n):
+                if n.id == ev:
+                    return ast.copy_location(ast.Name(id=var, ctx=n.ctx), n)
+                return n
+        hs = []
+        for typ, rs in handlers_:
+            rs2 = A().visit(copy.deepcopy(rs))
+            if any(isinstance(x, ast.Name) and x.id == 'self' for x in ast.walk(rs2)) and not (self.f.cls is not None):
+                return node
+            hs.append(ast.ExceptHandler(type=copy.deepcopy(typ), name=var, body=[rs2]))
+        t = ast.Try(body=node.body, handlers=hs, orelse=[], finalbody=[])
+        ast.copy_location(t, node)
+        ast.fix_missing_locations(t)
+        self.done.append('translation form')
+        return t
 
     def class_form(self, node, obj):
         self.n += 1
